@@ -108,3 +108,41 @@ func symxC09Lagging() {
 	}
 	rt.Assert(symxSameView(A.view(), B.view()), "C09.lagging.origin_and_peer_agree")
 }
+
+func symxPar(a, b func()) {
+	done := make(chan struct{}, 2)
+	go func() { a(); done <- struct{}{} }()
+	go func() { b(); done <- struct{}{} }()
+	<-done
+	<-done
+}
+
+// symxC20State: a local mutator beside a gossip merge, and beside a listing, on the replicated state.
+func symxC20State() {
+	symxInstallClock()
+	symxNow = 50
+	A := symxNewNode(1)
+	remote := symxEvent(symxUpdate{kind: 1, key: 1, key2: 1, la: 40, tag: 2}, symxUpdate{kind: 0, key: 1, la: 41, tag: 3}, symxUpdate{kind: 2, key: 1, la: 42, tag: 4})
+	switch rt.Int("pair", 0, 3) {
+	case 0:
+		symxPar(func() { A.st.Subscriptions().Create("s", []byte("m/a"), 1) }, func() { A.st.NotifyMsg(remote) })
+		v := A.view()
+		rt.Assert(v.subs[0][0] == 2 && v.subs[1][1] == 3, "C20.state.local_subscription_and_merged_one_both_listed")
+		rt.Assert(v.sess[1] == "c3" && v.ret[1] == "c4", "C20.state.merged_session_and_retained_listed")
+	case 1:
+		symxPar(func() { A.st.SessionMetadatas().Create("s", "c1", 1, nil, "m") }, func() { A.st.NotifyMsg(remote) })
+		v := A.view()
+		rt.Assert(v.sess[0] == "c1" && v.sess[1] == "c3", "C20.state.local_session_and_merged_one_both_listed")
+	case 2:
+		A.st.Subscriptions().Create("s", []byte("m/a"), 1)
+		var n int
+		symxPar(func() { A.st.Subscriptions().Create("t", []byte("m/a"), 1) }, func() { n = len(A.st.Subscriptions().ByPattern([]byte("m/a"))) })
+		rt.Assert(n == 1 || n == 2, "C20.state.listing_is_a_consistent_snapshot")
+	case 3:
+		symxPar(func() {
+			A.st.Topics().Set(&packet.Publish{Header: &packet.Header{Retain: true}, Topic: []byte("m/x"), Payload: []byte("c1")})
+		}, func() { A.st.NotifyMsg(remote) })
+		v := A.view()
+		rt.Assert(v.ret[0] == "c1" && v.ret[1] == "c4", "C20.state.local_retained_and_merged_one_both_listed")
+	}
+}
